@@ -13,7 +13,7 @@ CLAIMS = {
          'Decides the form of the holding check and no-partial-state of the core. The soundness obligation C05.sound (an accepted sale is covered once shares already matched with later purchases are subtracted) is written, FAILS on the current tree and is reported as KNOWN-FINDING F2 with a replayed witness ledger (known-findings.json); the completeness direction and the whole-history cover condition need INV_POS (not machine-checked); CLI/MCP front-ends are A-ext.'),
  'C09': ('Verus frame clauses: every mutating matcher function changes ledgers/pools only at the transaction\'s own ticker; the look-ahead changes claims only at same-ticker buys in the window.',
          'Frames of each step; the projection equality report(all) = (+) report(S) is the L3 closure and is not machine-checked; ticker case folding in parser/serde is A-ext.'),
- 'C10': ('Verus: SPLIT multiplies and UNSPLIT divides the pool quantity only (cost, ledgers, legs, other tickers untouched); look-ahead quantities are rescaled by the cumulative ratio and costed in buy-time units.',
+ 'C10': ('Verus: SPLIT multiplies and UNSPLIT divides the pool quantity only (cost, ledgers, legs, other tickers untouched); look-ahead quantities are rescaled by the cumulative ratio of the splits dated from the disposal day up to, not including, the acquisition\'s day (repairs 218dd93 and 551d6d1) and costed in buy-time units.',
          'Per-step, plus the day loop of Matcher::process is proved to apply every SPLIT/UNSPLIT line of the day to the pool of its own security, in line order, after the day\'s sales and pooling (C10.applied: pool quantity == fold of ratio_effect over the day\'s lines); the rescaled-twin equivalence is relational (not decided); the pre-pass (compute_cost_offsets) has no split handling: see DESIGN F6.'),
  'C12': ('Verus: the 30-day look-ahead changes claims only at same-ticker purchases dated 1..30 days after the sale (fc_step), and stops reading at the first line beyond day 30; Kani: the break test fires only beyond day 30.',
          'The extension lemma (prefix report unchanged by a suffix) needs L2 and is not machine-checked.'),
@@ -59,7 +59,7 @@ def main():
                   'baseline_off_cmd': 'cd /repo && cargo test --workspace --no-fail-fast --offline', 'source_commits': [], 'add_only': True},
         'engines': [{'name': 'contracts', 'path': '/verif/check', 'serves_properties': sorted(claimed), 'kind_free_text': 'python3 extractor + Verus 0.2026.09.13 (single-file) + Kani 0.68 harness crate /verif/kani'}],
         'checks': checks,
-        'notes': 'Fixes committed to /repo (see known-findings.json): 64deb08 (F1, C01), 5138c74 (F3, C15), d5f0171 (F9, C17). Exit 2 from a check means undecided (lost anchor, unsupported construct, resource limit): never an alarm.',
+        'notes': 'Fixes committed to /repo (see known-findings.json): 64deb08 (F1, C01), 5138c74 (F3, C15), d5f0171 (F9, C17), 218dd93 (F13, C10), 551d6d1 (F14, C02). Exit 2 from a check means undecided (lost anchor, unsupported construct, resource limit): never an alarm.',
         'not_applicable': [{'property_id': a, 'reason': b} for a, b in sorted(na)],
     }
     json.dump(m, open(os.path.join(ROOT, 'MANIFEST.json'), 'w'), indent=1)
